@@ -31,6 +31,8 @@ BOUNDS = {
              "units as simple quantities",
     "thorough": "same plus _MakeStr k = 3 and both renderers with k = 4 (per-condition timeout 1500 s) and two different construction orders per exponent vector",
 }
+BOUNDS_ALSO = '; also per derived quantity: reverse construction order, re-obtaining from composing lists, GetUnitName of value objects, empty-specification copies, pickle round trips (quantity, Scalar, FixedArray), Quantity ** n / * / /, empty-Array products and quotients, a simple operand times / over the derived one with independently computed strings; auxiliary: non-finite amounts'
+BOUNDS = {k_: v_ + BOUNDS_ALSO for k_, v_ in BOUNDS.items()}
 ASSUMPTIONS = ["CrossHair 0.0.110 'Confirmed over all paths' is trusted (z3 underneath); anything else is inconclusive", "A-TABLE: the reference renderer and the grammar parser are the "
                "specification, written from the property text", "unit symbols used (m, s, kg, cm, K) are atomic: no '.', '/', no trailing digit"]
 CHUNK = 40
